@@ -103,7 +103,17 @@ func peach(fm *Frame, opts peachOpt, f Callable, inputs Inputs) error {
 			return
 		}
 		if workerSema != nil {
-			workerSema.Acquire(ctx, 1)
+			if workerSema.Acquire(ctx, 1) != nil {
+				// The context has been canceled and no permit is held; don't
+				// start a worker (it would exceed the limit and over-release
+				// the semaphore).
+				return
+			}
+			// A worker may have broken while this was waiting for a permit.
+			if atomic.LoadInt32(&broken) != 0 {
+				workerSema.Release(1)
+				return
+			}
 		}
 		wg.Add(1)
 		go func() {
